@@ -111,7 +111,7 @@ fn signal(c: &ParamCase, frames: usize) -> Pcm {
         frames: frames as u32,
         seed: 5,
         chans: (0..ch).map(|i| ChanRecipe { kind: if i % 2 == 0 { Kind::Noise { amp: bps - 1 } } else { Kind::Sines { n: 2, amp: bps - 1, noise: 1 } }, wasted: 0, relation: 0 }).collect(),
-        seg: 0,
+        seg: 0, ms_mix: 0,
     }
     .expand()
 }
